@@ -41,7 +41,7 @@ def periodic_bound(kind, n, p):
 class C10(LZCheckMixin, PropertyCheck):
     pid = "C10"
     source_tables = ["LZ"]   # tables / constants regenerated from /repo's source (gen/srctables.py)
-    release_too = False
+    release_too = True       # both build profiles (review 2: the both-modes theorems must be tied to a release build too)
     rule = ("streams: periods p (quick: 64 sampled incl. 1,2,3,17,18,19,4094,4095,4096; thorough: all 1..4096) x 3 pattern contents "
             "(random bytes, random bits, one odd byte) x 4 total lengths (just above p, around p + k*L, several periods), through both "
             "compressors; plus the structured inputs of C08/C09 for the expansion bound and repeats continuing beyond 65808 bytes. "
@@ -137,7 +137,7 @@ TB = ("Trusted: Coq 8.16.1 kernel (vm_compute, no native_compute), no axioms (Pr
       "ExtrOcamlBasic extraction + hand-written OCaml driver, the Rust harness and Python generators/oracles. ")
 
 MANIFEST = dict(
-    text="Theorems (Coq 8.16, closed under the global context) about the compressor models of C08/C09: for EVERY input |compress10 x| <= 4 + n + ceil(n/8) and |compress13 x| <= hdr + n + ceil(n/8) (hdr = 8 for a non-empty input below 2^24, 12 with the extended size form); for EVERY input with a period p in 1..4096 - all contents, all lengths - the output is at most header + (p+2) literals + (ceil((n-p)/L)+1) references of r bytes + one flag byte per eight tokens, (r,L) = (2,18) for LZ10 and (4,4096) for LZ13; the same bounds hold for the exported functions whenever they return Ok (C10_exported_lz10/_lz13: no size hypothesis; after F21 they return Err from 2^24 / 2^32 bytes on); the carrying lemma shows that from position max(p,2) on the match search reports the whole look-ahead, i.e. the full 4096-byte window and the full match length are used. The models are tied to /repo on every run (extracted model vs real library byte-for-byte on inputs <= 6 KiB) and the two inequalities are evaluated on the implementation's output for swept periods (quick: 64 periods incl. all edges; thorough: all 1..4096) x 3 contents x 4 lengths, the structured inputs of C08/C09 and repeats continuing to 140000 bytes, through the struct and the enum entry points.",
+    text="Theorems (Coq 8.16, closed under the global context) about the compressor models of C08/C09: for EVERY input |compress10 x| <= 4 + n + ceil(n/8) and |compress13 x| <= hdr + n + ceil(n/8) (hdr = 8 for a non-empty input below 2^24, 12 with the extended size form); for EVERY input with a period p in 1..4096 - all contents, all lengths - the output is at most header + (p+2) literals + (ceil((n-p)/L)+1) references of r bytes + one flag byte per eight tokens, (r,L) = (2,18) for LZ10 and (4,4096) for LZ13; the same bounds hold for the exported functions whenever they return Ok (C10_exported_lz10/_lz13: no size hypothesis; after F21 they return Err from 2^24 / 2^32 bytes on); the carrying lemma shows that from position max(p,2) on the match search reports the whole look-ahead, i.e. the full 4096-byte window and the full match length are used. The models are tied to /repo on every run (extracted model vs real library byte-for-byte on inputs <= 6 KiB) and the two inequalities are evaluated on the implementation's output for swept periods (quick: 64 periods incl. all edges; thorough: all 1..4096) x 3 contents x 4 lengths, the structured inputs of C08/C09 and repeats continuing to 140000 bytes (the swept periods through the struct entry points; 30 / 300 structured inputs also through the enum entry points; debug profile).",
     note=TB + 'Modelled, not verified (A-std): Vec, slices, integer casts. The bound of the property has slack (two literals, one reference): changes of the compressor that stay inside it (e.g. literal decision <= 3, search from displacement 3) do not violate the property and are reported through the byte-for-byte correspondence only - see notes/lz.md, 8 mutations.',
     technique="Coq proof (token accounting of the emission loop; longest-match lemma for periodic inputs) + extracted-model differential check + the size inequalities evaluated on the implementation's output for swept periods, contents and lengths",
     ref='DESIGN.md section 4 (C10); notes/lz.md')
